@@ -300,7 +300,7 @@ def c12(res, tier, deadline):
                 "must be rejected with static_slot_error / static_stride_error before any "
                 "definition runs. Non-trivial = arity >= 3 or a multiple-inheritance lattice.")
     res.assumptions = COMMON_ASSUMPTIONS + [
-        "mutable static_offsets<> specialisations stand in for a program compiled with the generated constexpr header (E5 program family binds the two where built)"]
+        "mutable static_offsets<> specialisations stand in for a program compiled with the generated constexpr header; the two-stage program family (4 real domains, arity 1..4, release and debug policy, g++ and clang++) binds the stand-in to real constexpr headers"]
     if tier == "quick":
         sp = ("n=1-4,k=1,d=1;n=1-4,k=2,d=1;n=1-3,k=3,d=1;n=1-3,k=4,d=1,pres=full;"
               "n=1-3,k=2,d=2,pres=full|direct;n=4,k=3,d=0")
@@ -309,6 +309,7 @@ def c12(res, tier, deadline):
               "n=1-4,k=2,d=2,pres=full|direct;n=4,k=4,d=0")
     runs = [Run("rel", "offsets", sp), Run("dbg", "offsets", sp, variant="assert")]
     e1.execute(res, runs, deadline_total=deadline, second_oracle=False)
+    engines.gen2_stage(res, "OFFSETS", tier)
 
 
 @check("C13")
@@ -333,8 +334,11 @@ def c13(res, tier, deadline):
         sp = ("n=1-5,set=UUB,d=1,pres=full|direct;n=1-4,set=UBT,d=1,pres=full|direct;"
               "n=1-6,set=U,d=1;n=1-4,set=BB,d=1;n=1-3,set=UBQ,d=1;n=1-5,set=UUB,d=0")
     runs = [Run("rel", "encode", sp), Run("rel", "encode", "n=1-4,set=UUB,d=1,pres=full|direct;n=1-3,set=UBT,d=1", variant="asan"),
-            Run("dbg", "encode", "n=1-4,set=UUB,d=1", variant="assert")]
+            Run("dbg", "encode", "n=1-4,set=UUB,d=1", variant="assert"),
+            Run("rel", "encode", "n=1-4,set=UUB,d=1,pres=split;n=1-4,set=UBT,d=1,pres=split;n=5,set=UB,d=1,pres=split",
+                label="rel/plain/encode-split-records")]
     e1.execute(res, runs, deadline_total=deadline, second_oracle=False)
+    engines.gen2_stage(res, "TABLES", tier)
 
 
 HIST_FULL = "abcdemnwxyzU"
